@@ -205,11 +205,13 @@ func (rule *overlappingFieldsCanBeMergedRule) findConflictsWithinSelectionSet(pa
 // Collect all conflicts found between a set of fields and a fragment reference
 // including via spreading in any nested fragments.
 func (rule *overlappingFieldsCanBeMergedRule) collectConflictsBetweenFieldsAndFragment(conflicts []conflict, areMutuallyExclusive bool, fieldsInfo *fieldsAndFragmentNames, fragmentName string) []conflict {
+	verifCount(5)
 	// Skip if this fields/fragment pair has already been compared.
 	if rule.comparedFieldsAndFragmentSet.Has(fieldsInfo, fragmentName, areMutuallyExclusive) {
 		return conflicts
 	}
 	rule.comparedFieldsAndFragmentSet.Add(fieldsInfo, fragmentName, areMutuallyExclusive)
+	verifCount(3)
 
 	fragment := rule.context.Fragment(fragmentName)
 	if fragment == nil {
@@ -240,6 +242,7 @@ func (rule *overlappingFieldsCanBeMergedRule) collectConflictsBetweenFieldsAndFr
 // Collect all conflicts found between two fragments, including via spreading in
 // any nested fragments.
 func (rule *overlappingFieldsCanBeMergedRule) collectConflictsBetweenFragments(conflicts []conflict, areMutuallyExclusive bool, fragmentName1 string, fragmentName2 string) []conflict {
+	verifCount(6)
 	fragment1 := rule.context.Fragment(fragmentName1)
 	fragment2 := rule.context.Fragment(fragmentName2)
 
@@ -257,6 +260,7 @@ func (rule *overlappingFieldsCanBeMergedRule) collectConflictsBetweenFragments(c
 		return conflicts
 	}
 	rule.comparedSet.Add(fragmentName1, fragmentName2, areMutuallyExclusive)
+	verifCount(4)
 
 	fieldsInfo1 := rule.getReferencedFieldsAndFragmentNames(fragment1)
 	fieldsInfo2 := rule.getReferencedFieldsAndFragmentNames(fragment2)
@@ -379,6 +383,7 @@ func (rule *overlappingFieldsCanBeMergedRule) collectConflictsBetween(conflicts 
 
 // findConflict Determines if there is a conflict between two particular fields.
 func (rule *overlappingFieldsCanBeMergedRule) findConflict(parentFieldsAreMutuallyExclusive bool, responseName string, field *fieldDefPair, field2 *fieldDefPair) *conflict {
+	verifCount(2)
 
 	parentType1 := field.ParentType
 	ast1 := field.Field
